@@ -13,3 +13,8 @@ func IsEscaped(input string, position int) bool {
 	}
 	return escapeCounter%2 != 0
 }
+
+// MaxLineLength is the longest line the line scanners of the toolchain accept.
+// bufio.Scanner gives up silently on lines longer than its buffer (64 KiB by
+// default), which would drop the rest of the input.
+const MaxLineLength = 1 << 30
